@@ -737,3 +737,143 @@ class C15Harness(DocMixin):
 
 
 HARNESSES["c15"] = C15Harness
+
+
+def masked_tokens(tokens):
+    """(name, line, col, str with the token's own position masked)"""
+    out = []
+    for t in tokens:
+        s = str(t).replace(f"({t.line_number},{t.column_number})", "(L,C)", 1)
+        out.append((t.token_name, t.line_number, t.column_number, s))
+    return out
+
+
+class C11Harness(DocMixin):
+    """params: skeleton/holes (document d), at (0-based line index where the pragma line is
+    inserted), prefix '<!--'|'<!---', command, n (for disable-num-lines), ids (text after
+    the command/count), named (rule ids in lower case that the pragma names), wellformed."""
+
+    def __init__(self, params):
+        self._init_doc(params)
+        self.at = params["at"]
+        self.command = params.get("command", "disable-next-line")
+        self.n = params.get("n", 1)
+        self.named = set(params.get("named", []))
+        self.wellformed = params.get("wellformed", True)
+        self.line = params["pragma"]
+        self.argv = app.rule_args(params.get("selection", "all")) + ["scan", F]
+        app.the_vfs()
+
+    def body(self, v):
+        d = self.doc(v)
+        if d is None:
+            return SKIP
+        dp = scan_props.insert_line(d, self.at, self.line)
+        o_d = app.run_main(self.argv, [(F, d)])
+        o_p = app.run_main(self.argv, [(F, dp)])
+        td, tp = direct_tokens(d), direct_tokens(dp)
+        if td is not None and tp is not None:
+            # containers a pragma line cannot be transparent in are excluded below (judge)
+            td, tp = masked_tokens(td), masked_tokens(tp)
+        return (d, dp, o_d, o_p, td, tp)
+
+    def judge(self, obs, v):
+        if isinstance(obs, Raised):
+            return raised_verdict(obs)
+        d, dp, o_d, o_p, td, tp = obs
+        if scan_props.mentions(o_d.err, "Error") or scan_props.mentions(o_p.err, "Error"):
+            return []
+        pr = [p[1:] for p in o_p.pragma]
+        return scan_props.c11_pipeline(o_d.fail_tuples(), o_p.fail_tuples(), pr, self.at, self.command, self.n, self.named, self.wellformed, td, tp)
+
+    def digest(self, obs, rv):
+        if isinstance(obs, Raised):
+            return "raised:" + obs.root_type + "@" + obs.site
+        with NoTracing():
+            return f"{len(obs[2].fails)}->{len(obs[3].fails)}:" + ",".join(sorted({f.rule_id for f in obs[2].fails}))
+
+
+class C11Kernel:
+    """PluginManager.compile_pragmas + log_scan_failure: pragma at line p (param), command
+    disable-num-lines with a count written as 1-2 symbolic digit cells (finite alphabet,
+    DESIGN 2.7) or disable-next-line; failure of the named / another rule at symbolic line l."""
+
+    _pm = None
+
+    def __init__(self, params):
+        from application_properties import ApplicationProperties
+        from pymarkdown.plugin_manager.plugin_manager import PluginManager
+
+        self.p = params
+        self.pl = params["p"]
+        self.command = params["command"]
+        self.nd = params.get("digits", 1)
+        self.ident = params.get("ident", "md013")
+        self.alt = params.get("prefix", "<!--") == "<!---"
+        if C11Kernel._pm is None:
+            with NoTracing():
+                pres = env.Pres()
+                pm = PluginManager(pres)
+                pm.initialize(env.plugin_dir(), [], "", "", ApplicationProperties(), False, False)
+                C11Kernel._pm = (pm, pres)
+
+    def variables(self):
+        return [("l", "int"), ("other", "bool")] + [(f"d{i}", "int") for i in range(self.nd if self.command == "disable-num-lines" else 0)]
+
+    def body(self, v):
+        from pymarkdown.plugin_manager.plugin_scan_failure import PluginScanFailure
+
+        pm, pres = C11Kernel._pm
+        l = v["l"]
+        if not (1 <= l <= 14):
+            return SKIP
+        digits = []
+        if self.command == "disable-num-lines":
+            for i in range(self.nd):
+                c = v[f"d{i}"]
+                if not (48 <= c <= 57):  # ASCII digits; other int()-accepted spellings are outside the claim
+                    return SKIP
+                digits.append(c)
+        prefix = "<!---" if self.alt else "<!--"
+        head = [ord(x) for x in f"{prefix} pyml {self.command} "]
+        tail = [ord(x) for x in ((" " if digits else "") + f"{self.ident}-->")]
+        line = sym_doc(head + digits + tail)
+        pres.clear()
+        pm.starting_new_file("f")
+        key = -self.pl if self.alt else self.pl
+        pm.compile_pragmas("f", {key: line})
+        rule = "MD047" if v["other"] else "MD013"
+        pm.log_scan_failure(PluginScanFailure("f", l, 1, rule, "n", "d", None))
+        n = 0
+        for c in digits:
+            n = n * 10 + (c - 48)
+        return (len(pres.fails) == 0, len(pres.pragma), n, l, bool(v["other"]))
+
+    def judge(self, obs, v):
+        if isinstance(obs, Raised):
+            return [{"kind": "exception", "detail": obs.describe()}]
+        suppressed, nerr, n, l, other = obs
+        p = self.pl
+        known = self.ident in ("md013", "line-length")
+        if self.command == "disable-next-line":
+            want_sup = known and (not other) and l == p + 1
+            want_err = 0 if known else 1
+        else:
+            ok = n >= 1
+            want_sup = ok and known and (not other) and (p + 1 <= l <= p + n)
+            want_err = 0 if (ok and known) else 1
+        out = []
+        if bool(suppressed) != bool(want_sup):
+            out.append({"kind": "suppression", "detail": {"suppressed": bool(suppressed), "expected": bool(want_sup), "pragma_line": p, "failure_line": l, "count": n, "other_rule": other}})
+        if nerr != want_err:
+            out.append({"kind": "pragma-error-count", "detail": {"errors": nerr, "expected": want_err, "count": n}})
+        return out
+
+    def digest(self, obs, rv):
+        if isinstance(obs, Raised):
+            return "raised"
+        return f"{obs[0]}:{obs[1]}:{obs[4]}"
+
+
+HARNESSES["c11"] = C11Harness
+HARNESSES["c11kernel"] = C11Kernel
